@@ -66,19 +66,27 @@ def sized(self, obj, context, path, tail):
 
 def canonical(self, data0, context, path):
     """C02: whenever parse accepts a byte string, build accepts the value; the rebuilt bytes parse to an equal value and
-    building that again gives identical bytes."""
+    building that again gives identical bytes.  The first two assertions re-establish, for this class, the hypotheses the
+    lemma makes about sub-constructs (build returns an equal value; the canonical encoding is not longer than the accepted
+    input), so that the induction over construct trees is complete."""
     s0 = io.BytesIO(data0)
     try:
         v = self._parse(s0, context, path)
     except Exception:
         return
+    used = s0.tell()
+    lemma_hints(self, v, data0, data0)
     s1 = io.BytesIO()
     r1 = self._build(v, s1, context, path)
     b1 = s1.getvalue()
+    assert r1 == v, "build returns a value equal to the parsed one"
+    assert len(b1) <= used, "the canonical encoding is not longer than the accepted input"
     lemma_hints(self, v, b1, b1)
     s2 = io.BytesIO(b1)
     v2 = self._parse(s2, context, path)
     assert v2 == v, "re-parsing the rebuilt bytes gives an equal value"
     s3 = io.BytesIO()
     self._build(v2, s3, context, path)
-    assert s3.getvalue() == b1, "building again gives identical bytes"
+    b3 = s3.getvalue()
+    lemma_hints(self, v2, b3, b1)
+    assert b3 == b1, "building again gives identical bytes"
